@@ -175,9 +175,13 @@ def rebrand_inventory(chk, prog, c, rule="rebrand-inventory"):
                         and s["r"]["from"] == s["r"]["ty"] and not s.get("x"):
                     sites.append((norm(d_raw), bi, key))
     fns = sorted({s[0] for s in sites})
-    extra = [f for f in fns if prog.fn_of_closure(f) not in REBRAND_FNS]
+    # a private helper that is reachable only through the reviewed functions is part of them: fetch / try_fetch are
+    # interpreted end to end (helpers included) by the fetch-contract rule
+    from gcv.props import common
+    extra = [f for f in fns if prog.fn_of_closure(f) not in REBRAND_FNS
+             and common.escapes(prog, prog.fn_of_closure(f), set(REBRAND_FNS)) is not None]
     chk.inst(rule, "lifetime-only-transmutes[%s]" % c, not extra,
-             detail="lifetime-only transmute (re-branding) outside the reviewed functions: %s" % extra,
+             detail="lifetime-only transmute (re-branding) reachable without going through the reviewed functions: %s" % extra,
              sample={"sites": fns})
     chk.floor("rebrand-sites[%s]" % c, len(sites), 3)
     return sites
